@@ -178,3 +178,21 @@ def oklch_sweep(chunk, extra):
             fails.append({'colour': c, 'what': bad, 'library': [L, C, H], 'reference': [float(Lr[k]), float(Cr[k]), float(Hr[k])], 'back': back, 'safe': [s1, s2]})
             if len(fails) > 20: break
     return {'n': n, 'fails': fails[:20], 'stats': {'max_err_L': mL, 'max_err_C': mC, 'max_err_H_deg': mH}}
+
+
+def hex_sweep(chunk, extra):
+    """C07: every #rrggbb string (lower case) parses to its colour; upper case every 257th"""
+    from cm_colors.core.color_parser import parse_color_to_rgb
+    fails = []; n = 0
+    for i in chunk:
+        c = rgb_of(i); s = '#%02x%02x%02x' % c; n += 1
+        try: got = parse_color_to_rgb(s)
+        except Exception as e: got = f'{type(e).__name__}: {e}'
+        if got != c: fails.append({'input': s, 'expected': c, 'observed': got})
+        if i % 257 == 0:
+            for v in (s.upper(), s[1:], ' ' + s[1:].upper() + '\t'):
+                try: got = parse_color_to_rgb(v)
+                except Exception as e: got = f'{type(e).__name__}: {e}'
+                if got != c: fails.append({'input': v, 'expected': c, 'observed': got})
+        if len(fails) > 20: break
+    return {'n': n, 'fails': fails[:20], 'stats': {}}
